@@ -68,6 +68,9 @@ func (v *FV) assertAxioms(only []string) {
 		env := &ExprEnv{v: v, vars: map[string]TV{}, pkg: v.pkgOf(ax.Pkg), what: "axiom " + ax.Name}
 		t, err := env.EvalBool(ax.Text)
 		if err != nil {
+			if strings.Contains(err.Error(), "unknown type") && strings.Contains(ax.Text, "/") && !strings.Contains(ax.File, "/zz_verif_spec.go") {
+				continue // an external axiom about a package that is not part of this program
+			}
 			v.specError(Clause{File: ax.File, Line: ax.Line, Text: ax.Text}, err)
 			continue
 		}
